@@ -329,6 +329,28 @@ fn sig_perts(body: &[u8], o: &SigOpts, rng: &mut ChaCha8Rng) -> Result<Vec<Pert>
         };
         add_flips(&mut out, "hashed", req, rs.off_hashed + i, 1, &|_| d.clone());
     }
+    // the same subpackets with the length of one of them written in the five-octet form (area count and packet
+    // length follow): other octets in the hashed area than the ones that were signed
+    if let Ok(sps) = parse_subpackets(&rs.hashed) {
+        for sp in sps {
+            let lo = sp.len_octets as usize;
+            if lo == 5 {
+                continue;
+            }
+            let l = (sp.total_len - lo) as u32;
+            let mut h2 = rs.hashed[..sp.offset].to_vec();
+            h2.push(255);
+            h2.extend_from_slice(&l.to_be_bytes());
+            h2.extend_from_slice(&rs.hashed[sp.offset + lo..sp.offset + sp.total_len]);
+            h2.extend_from_slice(&rs.hashed[sp.offset + sp.total_len..]);
+            if rs.version == 4 && h2.len() > 0xFFFF {
+                continue;
+            }
+            let mut r2 = rs.clone();
+            r2.hashed = h2;
+            out.push(Pert { region: "hashed-reencode", detail: format!("hashed.sp{}.len-5octet", sp.typ), req: Req::Must, op: Op::Replace(r2.encode()) });
+        }
+    }
     add_flips(&mut out, "unhashed-len", Req::Either, rs.off_unhashed - w, w, &|_| {
         "unhashed-len".into()
     });
@@ -1065,7 +1087,8 @@ fn sp_rich(key: &impl KeyDetails) -> Result<Vec<Subpacket>, String> {
         (23, false, vec![0x80]),
         (24, false, b"hkps://keys.example.org".to_vec()),
         (25, false, vec![0]),
-        (26, false, b"https://example.org/policy".to_vec()),
+        // longer than 191 octets: two-octet subpacket length
+        (26, false, { let mut u = b"https://example.org/policy/".to_vec(); u.extend(std::iter::repeat(b'x').take(280)); u }),
         (27, false, vec![0x03, 0x04]),
         (28, false, b"me@example.org".to_vec()),
         (29, false, vec![0, b'n', b'o']),
